@@ -42,7 +42,7 @@ struct C18S : Scenario {
               {"prints success, is killed (SIGKILL)", local ? "delivered\n" : Z("r250 ok\n\0Kaccepted\n\0", 20), 0, SIGKILL, 'Z', 'Z'}, {"prints success, exits 1", local ? "x\n" : Z("r\0K\0", 4), 1, 0, 'D', 'D'} };
     if (fam == "ids") {
       std::vector<std::string> ids = {"8/123", "8/124", "8/125", "8/126", "8/999", "/123456", "/8/123", "/var/qmail/queue/mess/8/123", "../mess/8/123", "8/../8/123", "8//123", "8/", "8", "", "8/123x", "x", ".", "..", "8/12.3", "8/123/", std::string(99, '1'), std::string(100, '1'), "8/" + std::string(96, '1'), "8/" + std::string(97, '1'), "8/123\xff", "\xff", "8\\123", " 8/123", "8/123 ", "-8/123", "+8/123", "08/0123", "123456"};
-      for (auto &id : ids) for (int dn : {0, 1, 119, 120, 127, 128, 255}) { if (dn != 1 && !(id == "8/123" || id == "/123456" || id == "x" || id == "")) continue; for (auto &rc : std::vector<std::string>{okr, "nohost", "", "a@b@remote.example"}) for (auto &sn : std::vector<std::string>{"s@src.example", ""}) { if ((rc != okr || !sn.size()) && dn != 1) continue; cases.push_back({Cmd{dn, id, sn, rc}}); } }
+      for (auto &id : ids) for (int dn : {0, 1, 119, 120, 127, 128, 255}) { if (dn != 1 && !(id == "8/123" || id == "/123456" || id == "x" || id == "")) continue; for (auto &rc : std::vector<std::string>{okr, "nohost", "", "a@b@remote.example", "@local.example"}) for (auto &sn : std::vector<std::string>{"s@src.example", ""}) { if ((rc != okr || !sn.size()) && dn != 1) continue; cases.push_back({Cmd{dn, id, sn, rc}}); } }
     } else if (fam == "cut" || fam == "fate") {
       cases.push_back({Cmd{3, "8/123", "s@src.example", okr}, Cmd{4, "8/123", "", okr}});
       if (fam == "fate") cases[0].pop_back();
@@ -80,8 +80,9 @@ struct C18S : Scenario {
     std::vector<std::string> av = {"qmail-" + prog}; if (local) av.push_back("./Mailbox");
     mainpid = w.spawn("/var/qmail/bin/qmail-" + prog, av, fds, local ? 0 : UID_QMAILR, local ? 0 : GID_QMAIL, "/");
   }
-  bool starts_child(const Cmd &c) { if (c.delnum >= spawnlimit) return false; if (!numeric_id(c.id)) return false; if (c.rcpt.find('@') == std::string::npos) return false; std::string n; for (char ch : c.id) if (!(ch == '/' && !n.empty() && n.back() == '/')) n += ch;   /* the kernel ignores repeated slashes */
+  bool starts_child(const Cmd &c) { if (c.delnum >= spawnlimit) return false; if (local && !c.rcpt.empty() && c.rcpt[0] == '@') return false;   /* the trash address: accepted and thrown away without a delivery program */ if (!numeric_id(c.id)) return false; if (c.rcpt.find('@') == std::string::npos) return false; std::string n; for (char ch : c.id) if (!(ch == '/' && !n.empty() && n.back() == '/')) n += ch;   /* the kernel ignores repeated slashes */
     return n == "8/123" || n == "123456" || n == "8/" + std::string(96, '1'); }
+  bool valid_msg(const Cmd &c) { std::string n; for (char ch : c.id) if (!(ch == '/' && !n.empty() && n.back() == '/')) n += ch; return n == "8/123" || n == "123456" || n == "8/" + std::string(96, '1'); }
   std::string script(World &, Proc &p) override {
     std::string a; int v; auto I = [&](int x) { v = x; a.append((char *) &v, 4); };
     int &st = child_stage[p.vpid];
@@ -179,6 +180,7 @@ struct C18S : Scenario {
       char got = (*txt)[0], want;
       if (cm.delnum >= spawnlimit) want = 'Z'; else if (!numeric_id(cm.id)) want = 'D'; else if (cm.rcpt.find('@') == std::string::npos) want = 'D'; else if (!starts_child(cm)) want = 'Z'; else want = local ? fate->want_l : fate->want_r;
       if (cm.id.empty() && cm.delnum < spawnlimit) want = 'D';
+      if (local && !cm.rcpt.empty() && cm.rcpt[0] == '@' && cm.delnum < spawnlimit && numeric_id(cm.id) && valid_msg(cm)) want = 'K';
       if (got != want) { w.soft_violation(fam == "fate" ? "C09:relay:" + prog + ":" + fate->name : key, casename + ": delivery " + std::to_string(cm.delnum) + " is reported as [" + esc(*txt, 80) + "], expected status " + std::string(1, want)); return; }
       w.counters[std::string("verdict_") + got]++;
     }
